@@ -1,0 +1,343 @@
+//! Verification hooks for the refactoring tools (properties C19–C22),
+//! only compiled with `--cfg wilfred_garden_verif`.
+//!
+//! * `astq <hexsrc>`: like `astx`, but every expression carries its
+//!   byte span `(kind id used start end …)` and every symbol is
+//!   `(s name start end)`. Used by the harness to map offsets to
+//!   nodes and to resolve names independently of the tools.
+//! * `refactor <tool> <hexsrc> <offset> <end_offset> <hexname>`: call
+//!   the same function the `reftest-*` CLI subcommand calls
+//!   (rename, extract_variable, extract_function, wrap_in_dbg,
+//!   add_type_annotation) and report `(ok <hexsrc'>)` or `(err <hexmsg>)`.
+//! * `fix <hexsrc>`: one round of `check --fix` on the text:
+//!   `(fixed <hexsrc'> <number of fixes>)`.
+
+use std::fmt::Write as _;
+use std::path::PathBuf;
+
+use crate::parser::ast::{
+    Block, Expression, Expression_, IdGenerator, LetDestination, Symbol, ToplevelItem,
+};
+use crate::parser::parse_toplevel_items;
+use crate::parser::vfs::Vfs;
+
+fn hex(s: &str) -> String {
+    let mut out = String::with_capacity(s.len() * 2);
+    for b in s.as_bytes() {
+        let _ = write!(out, "{b:02x}");
+    }
+    out
+}
+
+fn verif_path() -> PathBuf {
+    PathBuf::from("/verif_input.gdn")
+}
+
+fn sym(s: &Symbol) -> String {
+    format!(
+        "(s {} {} {})",
+        s.name.text, s.position.start_offset, s.position.end_offset
+    )
+}
+
+fn dest(d: &LetDestination) -> String {
+    match d {
+        LetDestination::Symbol(s) => format!("(sym {})", sym(s)),
+        LetDestination::Destructure(syms) => {
+            let mut out = "(destr".to_owned();
+            for s in syms {
+                out.push(' ');
+                out.push_str(&sym(s));
+            }
+            out.push(')');
+            out
+        }
+    }
+}
+
+fn block(b: &Block) -> String {
+    let mut s = format!(
+        "(block {} {}",
+        b.open_brace.start_offset, b.close_brace.end_offset
+    );
+    for e in &b.exprs {
+        s.push(' ');
+        s.push_str(&expr(e));
+    }
+    s.push(')');
+    s
+}
+
+fn expr(e: &Expression) -> String {
+    let head = |k: &str| {
+        format!(
+            "({k} {} {} {} {}",
+            e.id.0,
+            if e.value_is_used { 1 } else { 0 },
+            e.position.start_offset,
+            e.position.end_offset
+        )
+    };
+    match &e.expr_ {
+        Expression_::IntLiteral(i) => format!("{} {i})", head("int")),
+        Expression_::StringLiteral(s) => format!("{} s:{})", head("str"), hex(s)),
+        Expression_::Variable(s) => format!("{} {})", head("var"), sym(s)),
+        Expression_::BinaryOperator(lhs, op, rhs) => format!(
+            "{} {:?} {} {})",
+            head("binop"),
+            op.kind,
+            expr(lhs),
+            expr(rhs)
+        ),
+        Expression_::Let(d, hint, rhs) => format!(
+            "{} {} {} {})",
+            head("let"),
+            dest(d),
+            match hint {
+                Some(h) => format!(
+                    "(hint s:{} {} {})",
+                    hex(&h.as_src()),
+                    h.position.start_offset,
+                    h.position.end_offset
+                ),
+                None => "nohint".to_owned(),
+            },
+            expr(rhs)
+        ),
+        Expression_::Assign(s, rhs) => format!("{} {} {})", head("assign"), sym(s), expr(rhs)),
+        Expression_::AssignUpdate(s, kind, rhs) => format!(
+            "{} {:?} {} {})",
+            head("update"),
+            kind,
+            sym(s),
+            expr(rhs)
+        ),
+        Expression_::If(c, t, els) => format!(
+            "{} {} {} {})",
+            head("if"),
+            expr(c),
+            block(t),
+            match els {
+                Some(b) => block(b),
+                None => "noelse".to_owned(),
+            }
+        ),
+        Expression_::While(c, b) => format!("{} {} {})", head("while"), expr(c), block(b)),
+        Expression_::ForIn(d, it, b) => {
+            format!("{} {} {} {})", head("for"), dest(d), expr(it), block(b))
+        }
+        Expression_::Match(scrutinee, cases) => {
+            let mut s = format!("{} {}", head("match"), expr(scrutinee));
+            for (pattern, b) in cases {
+                let _ = write!(
+                    s,
+                    " (case {} {} {})",
+                    sym(&pattern.variant_sym),
+                    match &pattern.payload {
+                        Some(d) => dest(d),
+                        None => "nodest".to_owned(),
+                    },
+                    block(b)
+                );
+            }
+            s.push(')');
+            s
+        }
+        Expression_::Return(x) => format!(
+            "{} {})",
+            head("return"),
+            match x {
+                Some(x) => expr(x),
+                None => "none".to_owned(),
+            }
+        ),
+        Expression_::Break => format!("{})", head("break")),
+        Expression_::Continue => format!("{})", head("continue")),
+        Expression_::ListLiteral(items) => {
+            let mut s = head("list");
+            for item in items {
+                s.push(' ');
+                s.push_str(&expr(&item.expr));
+            }
+            s.push(')');
+            s
+        }
+        Expression_::TupleLiteral(items) => {
+            let mut s = head("tuple");
+            for item in items {
+                s.push(' ');
+                s.push_str(&expr(item));
+            }
+            s.push(')');
+            s
+        }
+        Expression_::Call(recv, args) => {
+            let mut s = format!("{} {}", head("call"), expr(recv));
+            for arg in &args.arguments {
+                s.push(' ');
+                s.push_str(&expr(&arg.expr));
+            }
+            s.push(')');
+            s
+        }
+        Expression_::MethodCall(recv, name, args) => {
+            let mut s = format!("{} {} {}", head("mcall"), expr(recv), sym(name));
+            for arg in &args.arguments {
+                s.push(' ');
+                s.push_str(&expr(&arg.expr));
+            }
+            s.push(')');
+            s
+        }
+        Expression_::FunLiteral(fun_info) => {
+            let mut s = format!("{} (params", head("lambda"));
+            for p in &fun_info.params.params {
+                let _ = write!(
+                    s,
+                    " (p {} {})",
+                    sym(&p.symbol),
+                    match &p.hint {
+                        Some(h) => format!("(hint s:{})", hex(&h.as_src())),
+                        None => "nohint".to_owned(),
+                    }
+                );
+            }
+            let _ = write!(
+                s,
+                ") {} {})",
+                match &fun_info.return_hint {
+                    Some(h) => format!("(hint s:{})", hex(&h.as_src())),
+                    None => "nohint".to_owned(),
+                },
+                block(&fun_info.body)
+            );
+            s
+        }
+        Expression_::Assert(x) => format!("{} {})", head("assert"), expr(x)),
+        Expression_::Parentheses(paren) => format!("{} {})", head("paren"), expr(&paren.expr)),
+        Expression_::Invalid => format!("{})", head("invalid")),
+        Expression_::FloatLiteral(_) => format!("{} Float)", head("unsup")),
+        Expression_::Try(_, _, _) => format!("{} Try)", head("unsup")),
+        Expression_::DictLiteral(_) => format!("{} Dict)", head("unsup")),
+        Expression_::StructLiteral(_, _) => format!("{} Struct)", head("unsup")),
+        Expression_::DotAccess(_, _) => format!("{} DotAccess)", head("unsup")),
+        Expression_::NamespaceAccess(_, _) => format!("{} NamespaceAccess)", head("unsup")),
+    }
+}
+
+fn op_astq(src: &str) -> String {
+    let mut id_gen = IdGenerator::default();
+    let (_vfs, vfs_path) = Vfs::singleton(verif_path(), src.to_owned());
+    let (items, errors) = parse_toplevel_items(&vfs_path, src, &mut id_gen);
+    let mut out = format!("(astq {}", errors.len());
+    for item in &items {
+        match item {
+            ToplevelItem::Fun(name, fun_info, _) => {
+                let _ = write!(out, " (fun {} (params", sym(name));
+                for p in &fun_info.params.params {
+                    let _ = write!(
+                        out,
+                        " (p {} {})",
+                        sym(&p.symbol),
+                        match &p.hint {
+                            Some(h) => format!("(hint s:{})", hex(&h.as_src())),
+                            None => "nohint".to_owned(),
+                        }
+                    );
+                }
+                let _ = write!(
+                    out,
+                    ") {} {})",
+                    match &fun_info.return_hint {
+                        Some(h) => format!("(hint s:{})", hex(&h.as_src())),
+                        None => "nohint".to_owned(),
+                    },
+                    block(&fun_info.body)
+                );
+            }
+            ToplevelItem::Enum(info) => {
+                let _ = write!(out, " (enum {})", info.name_sym.name.text);
+            }
+            ToplevelItem::Expr(e) => {
+                let _ = write!(out, " (expr {})", expr(&e.0));
+            }
+            ToplevelItem::Block(b) => {
+                let _ = write!(out, " (blockitem {})", block(b));
+            }
+            ToplevelItem::Test(info) => {
+                let _ = write!(out, " (test {})", block(&info.body));
+            }
+            ToplevelItem::Method(_, _) => out.push_str(" (unsupitem Method)"),
+            ToplevelItem::Struct(_) => out.push_str(" (unsupitem Struct)"),
+            ToplevelItem::Import(_) => out.push_str(" (unsupitem Import)"),
+        }
+    }
+    out.push(')');
+    out
+}
+
+fn op_refactor(rest: &str) -> Result<String, String> {
+    let parts: Vec<&str> = rest.split(' ').collect();
+    if parts.len() < 5 {
+        return Err("refactor <tool> <hexsrc> <offset> <end> <hexname>".to_owned());
+    }
+    let src = crate::verif_hooks::verif_unhex(parts[1])?;
+    let offset: usize = parts[2].parse().map_err(|_| "offset".to_owned())?;
+    let end_offset: usize = parts[3].parse().map_err(|_| "end".to_owned())?;
+    let name = crate::verif_hooks::verif_unhex(parts[4])?;
+    let path = verif_path();
+    let res = match parts[0] {
+        "rename" => crate::rename::rename(&src, &path, offset, &name),
+        "extract_variable" => {
+            crate::extract_variable::extract_variable(&src, &path, offset, end_offset, &name)
+        }
+        "extract_function" => {
+            crate::extract_function::extract_function(&src, &path, offset, end_offset, &name)
+        }
+        "wrap_in_dbg" => crate::wrap_in_dbg::wrap_in_dbg(&src, &path, offset, end_offset),
+        "add_type_annotation" => {
+            crate::add_type_annotation::add_type_annotation(&src, &path, offset, end_offset)
+        }
+        t => return Err(format!("unknown tool {t}")),
+    };
+    Ok(match res {
+        Ok(s) => format!("(ok {})", hex(&s)),
+        Err(e) => format!("(err {})", hex(&e)),
+    })
+}
+
+/// One round of `check --fix`: the same diagnostics pass as
+/// `syntax_check::check`, then `apply_fixes`.
+fn op_fix(src: &str) -> String {
+    use std::rc::Rc;
+    let mut id_gen = IdGenerator::default();
+    let (vfs, vfs_path) = Vfs::singleton(verif_path(), src.to_owned());
+    let (items, errors) = parse_toplevel_items(&vfs_path, src, &mut id_gen);
+    if !errors.is_empty() {
+        return "(parse-error)".to_owned();
+    }
+    let mut env = crate::env::Env::new(id_gen, vfs);
+    let ns = env.get_or_create_namespace(&verif_path());
+    let (mut diags, _) = crate::eval::load_toplevel_items(&items, &mut env, Rc::clone(&ns));
+    diags.extend(crate::checks::check_toplevel_items_in_env(
+        &vfs_path, &items, &env, ns,
+    ));
+    let mut all_fixes = vec![];
+    for d in diags {
+        all_fixes.extend(d.fixes);
+    }
+    if all_fixes.is_empty() {
+        return format!("(fixed {} 0)", hex(src));
+    }
+    let fixed = crate::syntax_check::verif_apply_fixes(src, &all_fixes);
+    format!("(fixed {} {})", hex(&fixed), all_fixes.len())
+}
+
+pub(crate) fn op(op: &str, rest: &str) -> Result<String, String> {
+    match op {
+        "fix" => Ok(op_fix(&crate::verif_hooks::verif_unhex(rest)?)),
+        "astq" => Ok(op_astq(&crate::verif_hooks::verif_unhex(rest)?)),
+        "refactor" => op_refactor(rest),
+        _ => Err(format!("unknown op {op}")),
+    }
+}
